@@ -30,10 +30,17 @@ type Listener struct {
 	Kinds     []string // allowedRoutes.kinds
 	KindGroup *string  // group of every kinds entry (nil: not set)
 	Exprs     []metav1.LabelSelectorRequirement
-	From      string // Same | All | Selector | "" (nil)
+	CertRefs  []CertRef // tls.certificateRefs (mode Terminate)
+	From      string    // Same | All | Selector | "" (nil)
 	Selector  map[string]string
 	SelNil    bool // From: Selector without selector
 	NoAllowed bool // allowedRoutes nil
+}
+
+// CertRef is one tls.certificateRefs entry; Namespace "" = not set
+type CertRef struct {
+	Name      string
+	Namespace string
 }
 
 func Gateway(ns, name, class string, listeners []Listener) *gatewayv1.Gateway {
@@ -45,6 +52,18 @@ func Gateway(ns, name, class string, listeners []Listener) *gatewayv1.Gateway {
 		if l.Hostname != "" {
 			h := gatewayv1.Hostname(l.Hostname)
 			gl.Hostname = &h
+		}
+		if len(l.CertRefs) > 0 {
+			mode := gatewayv1.TLSModeTerminate
+			gl.TLS = &gatewayv1.GatewayTLSConfig{Mode: &mode}
+			for _, c := range l.CertRefs {
+				ref := gatewayv1.SecretObjectReference{Name: gatewayv1.ObjectName(c.Name)}
+				if c.Namespace != "" {
+					n := gatewayv1.Namespace(c.Namespace)
+					ref.Namespace = &n
+				}
+				gl.TLS.CertificateRefs = append(gl.TLS.CertificateRefs, ref)
+			}
 		}
 		if !l.NoAllowed {
 			ar := &gatewayv1.AllowedRoutes{}
